@@ -8,5 +8,6 @@ NOT_DECIDED = {
     'C19': ['frame scan over all decode-reachable functions not built; Capability.klass kls.ID mutation open'],
     'C07': ['Capabilities objects abstract; ADD-PATH RequirePath.setup, OPEN encode/decode, Capabilities.new bounded only'],
     'C04': ['bounded only: no deductive obligation on the RIB representation invariant yet; watchdog operations not explored'],
+    'C17': ['the applies-the-difference half (replace_reload, Reactor.reload, _commit_reload) is bounded only', 'assumed: _link()/validate() do not raise after the commit'],
     'C06': ['the kernel delivers the byte stream faithfully (recv callee contract); interference from other asyncio tasks at await is not decided'],
 }
